@@ -157,7 +157,7 @@ def case_profile(run, i):
     kinds = "+".join(sorted({t["kind"] for t in truth}))
     run.begin_case("profile", i, cls=f"profile:{method}:{kinds}", method=method, truth=truth)
     run._tls.c11_diag = {}
-    cna = make_cna(cols, meta={"sample_id": "S"})
+    cna = make_cna(cols, meta={"sample_id": "S"}, odd=(i % 5 == 2))
     try:
         S.do_segmentation(cna, method, processes=1 if (i // 2) % 3 else 2)
     except Exception:
